@@ -14,17 +14,58 @@ Open Scope string_scope.
 Open Scope list_scope.
 Open Scope N_scope.
 
-(* y is as before (parent link, name; children only lost) or it is cleared *)
+(* content lists that only lost sub-elements *)
+Inductive thin : list citem -> list citem -> Prop :=
+| thin_nil : thin [] []
+| thin_keep it l' l : thin l' l -> thin (it :: l') (it :: l)
+| thin_drop c l' l : thin l' l -> thin l' (CElem c :: l).
+
+Lemma thin_refl l : thin l l.
+Proof. induction l; constructor; auto. Qed.
+Lemma thin_trans a b c : thin a b -> thin b c -> thin a c.
+Proof.
+  intros H1 H2. revert a H1. induction H2 as [|it l' l H IH|x l' l H IH]; intros a H1.
+  - exact H1.
+  - inversion H1; subst; [constructor; auto|apply thin_drop; auto].
+  - apply thin_drop. auto.
+Qed.
+Lemma thin_incl l' l : thin l' l -> incl (elems l') (elems l).
+Proof.
+  induction 1 as [|it l' l H IH|c l' l H IH]; [apply incl_refl| |].
+  - destruct it as [c|d]; cbn; [|exact IH]. intros x [<-|Hx]; [left; auto|right; auto].
+  - cbn. intros x Hx. right. auto.
+Qed.
+Lemma thin_data l' l d : thin l' l -> In (CData d) l -> In (CData d) l'.
+Proof.
+  induction 1 as [|it l' l H IH|c l' l H IH]; intros Hi; auto.
+  - destruct Hi as [<-|Hi]; [left; auto|right; auto].
+  - destruct Hi as [Hi|Hi]; [discriminate|auto].
+Qed.
+Lemma thin_remove_at l d : forall pos, index_of (citem_is d) l = Some pos -> thin (remove_at l pos) l.
+Proof.
+  induction l as [|y l IH]; intros pos H; cbn in H; [discriminate|].
+  destruct (citem_is d y) eqn:E.
+  - injection H as <-. destruct y as [y|dd]; cbn in E; [|discriminate]. cbn. apply thin_drop. apply thin_refl.
+  - destruct (index_of (citem_is d) l) as [k|]; cbn in H; [|discriminate]. injection H as <-. cbn. apply thin_keep. auto.
+Qed.
+
+(* everything the writer reads of a node except its content list and file set *)
+Definition same_label (n n' : node) : Prop :=
+  n_type n' = n_type n /\ n_attrs n' = n_attrs n /\ n_comment n' = n_comment n /\ n_files n' = n_files n /\
+  thin (n_content n') (n_content n).
+
+(* y is as before (parent link, name, label; sub-elements only lost) or it is cleared *)
 Definition same_or_cleared (n n' : node) : Prop :=
-  (n_parent n' = n_parent n /\ n_name n' = n_name n /\ incl (kids n') (kids n)) \/ (n_parent n' = PNone /\ kids n' = []).
+  ((n_parent n' = n_parent n /\ n_name n' = n_name n /\ incl (kids n') (kids n)) /\ same_label n n') \/
+  (n_parent n' = PNone /\ kids n' = []).
 Definition cleared (w : world) (z : id) : Prop := exists n, w_nodes w z = Some n /\ n_parent n = PNone /\ kids n = [].
 
 Lemma soc_refl n : same_or_cleared n n.
-Proof. left. repeat split; auto. apply incl_refl. Qed.
+Proof. left. split; [repeat split; auto; apply incl_refl|]. repeat split; auto. apply thin_refl. Qed.
 Lemma soc_trans a b c : same_or_cleared a b -> same_or_cleared b c -> same_or_cleared a c.
 Proof.
-  intros [(P1 & N1 & K1)|(P1 & K1)] [(P2 & N2 & K2)|(P2 & K2)].
-  - left. repeat split; try congruence. eapply incl_tran; eauto.
+  intros [((P1 & N1 & K1) & (T1 & A1 & C1 & F1 & X1))|(P1 & K1)] [((P2 & N2 & K2) & (T2 & A2 & C2 & F2 & X2))|(P2 & K2)].
+  - left. split; [repeat split; try congruence; eapply incl_tran; eauto|]. repeat split; try congruence. eapply thin_trans; eauto.
   - right. auto.
   - right. split; [congruence|]. rewrite K1 in K2. destruct (kids c) as [|k l]; auto. exfalso. apply (K2 k). left. reflexivity.
   - right. auto.
@@ -155,7 +196,8 @@ Proof.
   split; [split; [|rewrite roots_wset; exact Rt]|].
   - intros y n Hn. destruct (N.eq_dec y pi) as [->|Hne].
     + assert (n = ns) by congruence. subst n. exists (set_content ns (remove_at (n_content ns) pos)). rewrite nodes_wset_eq.
-      split; auto. left. repeat split; auto. intros k Hk. unfold kids in *. cbn in Hk. eapply elems_remove_incl; eauto.
+      split; auto. left. split; [repeat split; auto; intros k Hk; unfold kids in *; cbn in Hk; eapply elems_remove_incl; eauto|].
+      repeat split; auto. cbn. eapply thin_remove_at; eauto.
     + destruct (in_dec N.eq_dec y (subl f w d)) as [Hi|Hi].
       * destruct (Clr y Hi) as (ny & Hny & Hp & Hk). exists ny. split; auto. right. auto.
       * exists n. rewrite nodes_wset_neq; auto. rewrite (Fr y Hi). split; auto. apply soc_refl.
@@ -175,7 +217,7 @@ Proof.
 Qed.
 Lemma Jrel_cleared w w' z : Jrel w w' -> cleared w z -> cleared w' z.
 Proof.
-  intros J (n & Hn & Hp & Hk). destruct (J _ _ Hn) as (n' & Hn' & [(P & _ & K)|(P & K)]); exists n'; repeat split; auto; try congruence.
+  intros J (n & Hn & Hp & Hk). destruct (J _ _ Hn) as (n' & Hn' & [((P & _ & K) & _)|(P & K)]); exists n'; repeat split; auto; try congruence.
   rewrite Hk in K. destruct (kids n') as [|k l]; auto. exfalso. apply (K k). left. reflexivity.
 Qed.
 
@@ -186,13 +228,13 @@ Proof.
   intros C0 Hr0 (Ck & NOk & _) J y Hr. induction Hr as [(n & Hn)|p c Hp IH Hl]; intros Hnc.
   - destruct (J _ _ Hn) as (nk & Hnk & _). constructor. exists nk; auto.
   - destruct (c_up _ C0 _ _ Hl) as (cn & Hcn & Hcp).
-    destruct (J _ _ Hcn) as (cnk & Hcnk & [(P & _ & _)|(P & _)]); [|exfalso; eapply Hnc; eauto].
+    destruct (J _ _ Hcn) as (cnk & Hcnk & [((P & _ & _) & _)|(P & _)]); [|exfalso; eapply Hnc; eauto].
     assert (par wk c p) as Hpark by (exists cnk; split; auto; congruence).
     pose proof (NOk _ _ Hpark) as Hlk.
     eapply R_kid; eauto. apply IH. intros pnk Hpnk Hpp.
     destruct Hlk as (pnk' & Hpnk' & Hin). assert (pnk' = pnk) by congruence. subst pnk'.
     destruct (reach_alloc _ _ _ C0 Hp) as (pn0 & Hpn0).
-    destruct (J _ _ Hpn0) as (pnk'' & Hpnk'' & [(Pp & _ & _)|(_ & Kk)]); assert (pnk'' = pnk) by congruence; subst pnk''.
+    destruct (J _ _ Hpn0) as (pnk'' & Hpnk'' & [((Pp & _ & _) & _)|(_ & Kk)]); assert (pnk'' = pnk) by congruence; subst pnk''.
     + (* the parent link of p in w0 is not PNone: p is reached from the root *)
       destruct (reach_cases _ _ _ Hp) as [->|(q & _ & Hlq)].
       * destruct (c_roots _ C0 _ _ Hr0) as (rn & Hrn & Hrp). congruence.
@@ -219,7 +261,7 @@ Proof.
     2:{ exfalso. destruct p as [[pi|]|]; try discriminate.
         apply wbind_inv in H2 as [(u1 & w2 & H3 & H2) | (e1 & H3 & _)]; [discriminate|apply wtry_inv in H3 as (? & _ & [=])]. }
     assert (Jrel wk w1 /\ TreeInv w1 /\ FilesInv T w1 /\ roots w1 = roots wk /\ cleared w1 d) as (J1 & TI1 & FI1 & R1 & Cd).
-    { destruct Sd as [(Pd & Nd & _)|(Pd & Kd)].
+    { destruct Sd as [((Pd & Nd & _) & _)|(Pd & Kd)].
       - (* d is still there: it is deleted now *)
         unfold parent_of in H1. rewrite Pd, Hp0 in H1. apply wtry_inv in H1 as (rp & H1 & Ep).
         apply wret_inv in H1 as (-> & _). injection Ep as ->.
@@ -338,7 +380,7 @@ Proof.
     - intros p c (pn' & Hpn' & Hc).
       assert (Reach w3 p p) as Hpp by (apply Shr; constructor; exists pn'; auto).
       destruct (reach_alloc _ _ _ C3 Hpp) as (pn & Hpn3).
-      destruct (J _ _ Hpn3) as (pn'' & Hpn'' & [(_ & _ & K)|(_ & K)]); assert (pn'' = pn') by congruence; subst pn''.
+      destruct (J _ _ Hpn3) as (pn'' & Hpn'' & [((_ & _ & K) & _)|(_ & K)]); assert (pn'' = pn') by congruence; subst pn''.
       + exists pn. split; auto.
       + rewrite K in Hc. destruct Hc.
     - intros q Hq. destruct (c_up _ C3 _ _ Hq) as (n1 & Hn1' & Hp1). destruct (c_roots _ C3 _ _ Hk) as (n2 & Hn2 & Hp2). congruence. }
